@@ -345,6 +345,7 @@ func (a *AggregatePlan) Batch(ctx *ExecuteCtx) ([][]Column, error) {
 		}
 		if nrows <= restSkips {
 			a.skips += nrows
+			rows = nil
 		} else {
 			a.skips += restSkips
 			rows = rows[restSkips:]
